@@ -230,3 +230,15 @@ package stdlib
 //@ assume-contract (time.Duration).Seconds
 //@   pure
 //@   nopanic
+
+//@ spec timebefore(t time.Time, u time.Time) bool
+
+//@ assume-contract (time.Time).Before
+//@   pure
+//@   nopanic
+//@   ensures result == timebefore(t, u) [ASSUMED]
+
+//@ assume-contract time.NewTicker
+//@   pure
+//@   nopanic
+//@   ensures result != nil && fresh(result) [ASSUMED]
